@@ -48,6 +48,13 @@ def followup(stage, lines, model, checked, release, tier, rng):
             _st[s] = dict(pk=pk, sk=sk, req=K.sign_raw(s, b"totality", sk, 0))
             L.append(_st[s]["req"])
             L.append("@impl scan::honest %s %s %s" % (s, K.hx(R(32)), K.hx(R(rng.randrange(0, 300)))))
+            # syntactically valid secret keys with an extreme t0 (attempts with far more than omega hints, long rejection
+            # streaks): signing must complete in the overflow-checked build as well
+            p0 = S.P(s)
+            for frac in (0.35, 0.7 if p0.gamma2 == (S.Q - 1) // 88 else 1.0):
+                csk = K.craft_sk(s, sk, p0.k, frac, rng)
+                for _ in range(3 if tier == "quick" else 12):
+                    L.append("@impl " + K.sign_raw(s, R(8), csk, 0))
         return L
     if stage == 2:
         idx = {l: i for i, l in enumerate(lines)}
@@ -113,6 +120,10 @@ def violated_all(lines, model, checked, release):
             for prof, ans in (("checked", checked), ("wrapping", release)):
                 if not ans[i].startswith("ok "):
                     out.append((i, "%s build: key generation from a 32-byte seed did not complete: %s" % (prof, ans[i][:40])))
+        elif l.startswith("@impl sign::") and "::signature " in l:
+            for prof, ans in (("checked", checked), ("wrapping", release)):
+                if not ans[i].startswith("ok "):
+                    out.append((i, "%s build: signing with a syntactically valid secret key (extreme t0: attempts with many hints) did not complete: %s" % (prof, ans[i][:40])))
         elif "::signature " in l and not l.startswith("@"):
             for prof, ans in (("checked", checked), ("wrapping", release)):
                 if not ans[i].startswith("ok "):
